@@ -32,6 +32,14 @@ static void sstring(Src &s, Case &c) { c14::str_target<igris::static_string, Str
     "0..2N values, resize(0..2N), erase(first,last), clear, copy/move assignment incl. self, "       \
     "destruction; non-trivial = at least one operation offered more elements than the remaining room"
 
+static void svec_small(Src &s, Case &c)
+{
+    if (s.coin())
+        c14::vec_target<igris::static_vector, signed char, VecApi>(s, c);
+    else
+        c14::vec_target<igris::static_vector, short, VecApi>(s, c);
+}
+VP_TARGET("svec_small", svec_small, C14_VEC_RULE("static_vector<signed char,N> / static_vector<short,N>"));
 VP_TARGET("svec_int", svec_int, C14_VEC_RULE("static_vector<int,N>"));
 VP_TARGET("svec_tracked", svec_tracked, C14_VEC_RULE("static_vector<Tracked,N>"));
 VP_TARGET("sstring", sstring,
